@@ -2,7 +2,14 @@
 // run_clock_error_bound_poller (message selection, clock-read order) and ClockErrorBoundPoller
 // (grace period, start-up, stamping).  Woven as a child module of `chrony_poller`.
 use super::*;
+// (explicit imports: the harness must not depend on which names chrony_poller.rs happens to import)
 use crate::channels::DispatchBox;
+use crate::thread_manager::Context;
+use crate::{ChannelId, Message, PhcInfo};
+use chrony_candm::reply::Tracking;
+use clock_bound_shm::common::CLOCK_MONOTONIC;
+use std::sync::mpsc;
+use std::time::{Duration, Instant};
 use chrony_candm::common::{ChronyAddr, ChronyFloat};
 use chrony_candm::reply::{Reply, Status};
 use std::hash::Hash;
